@@ -7,6 +7,6 @@ d=$(mktemp -d /tmp/mutrepo.XXXX)
 rsync -a --exclude .git /repo/ $d/
 sed -i "$e" $d/$f
 if diff -q /repo/$f $d/$f >/dev/null; then echo "MUTATION DID NOT APPLY"; rm -rf $d; exit 3; fi
-(cd $d && go build ./... 2>&1 | head -5)
-/verif/bin/govc dev --repo $d "$@" 2>&1 | grep -v "^  ok" | head -${LINES_MAX:-25}
+if ! (cd $d && go build ./... >/dev/null 2>&1); then echo "MUTANT DOES NOT COMPILE"; rm -rf $d; exit 4; fi
+/verif/bin/govc dev --repo $d "$@" 2>&1 | grep -v "^  ok" | cut -c1-300 | head -${LINES_MAX:-25}
 rm -rf $d
